@@ -65,7 +65,12 @@ func (op *tagValuesLookup) findTagValueIDsByExpr(expr stmt.Expr) {
 	case stmt.TagFilter:
 		tagKeyID, err := op.getTagKeyID(expr.TagKey())
 		if err != nil {
-			op.err = err
+			// no series of the metric on this node carries the tag key (another node may have some): the filter
+			// matches nothing here, the rest of the condition is still evaluated
+			op.executeCtx.TagFilterResult[expr.Rewrite()] = &flow.TagFilterResult{
+				TagKeyNotFound: true,
+				TagValueIDs:    roaring.New(),
+			}
 			return
 		}
 		tagValueIDs, err := op.metaDB.FindTagValueDsByExpr(tagKeyID, expr)
